@@ -167,7 +167,7 @@ PROPS = {
     "C16": {
         "level": "exploration",
         "build": "plain",
-        "tiers": tiers(3000, 60, 80000, 900),
+        "tiers": tiers(12000, 60, 400000, 900),
         "rule": "world memcron: the real cron.Cron with its own broadcaster on the fake clock; 4-16 operations at unique instants - Add (one-shot +d, !RFC3339, "
                 "recurring every 1/2/5 s and every minute) over 3 ids so that replacement happens, Rem, Suspend/Resume/Pause (local and broadcast); callbacks "
                 "record (id, instant) and 1 in 3 then sleeps 0.1-3.5 s (opens the window between 'popped' and 're-armed'); Timeline inspected after every "
